@@ -12,7 +12,7 @@ from rasterio.transform import Affine  # noqa: E402
 NAN = float('nan')
 
 
-def coverage_case(rng, ratio):
+def coverage_case(rng, ratio, big=False):
     """_full_coverage_mask on in-memory arrays: input mask on a grid `ratio` times finer than (aligned with) the parameter grid."""
     from homonim.kernel_model import KernelModel
     from homonim.raster_array import RasterArray
@@ -20,14 +20,19 @@ def coverage_case(rng, ratio):
     kh, kw = rng.choice([1, 3, 5]), rng.choice([1, 3, 5])
     if kh * kw < 2:
         kw = 3
+    if big:
+        # kernels whose eroded neighbourhood (h + 2) x (w + 2) holds more than 255 pixels (what an 8-bit count cannot hold), on images large
+        # enough to keep fully supported pixels
+        kh, kw = rng.choice([(15, 15), (11, 21), (21, 11), (17, 13), (13, 19)])
+        H, W = kh + 2 + rng.randint(3, 8), kw + 2 + rng.randint(3, 8)
     fine = np.ones((H * ratio, W * ratio), bool)
-    for _ in range(rng.randint(0, 3)):
-        r, c = rng.randrange(H * ratio), rng.randrange(W * ratio)
+    for _ in range(rng.randint(0, 3) if not big else rng.randint(0, 1)):
+        r, c = (rng.randrange(H * ratio), rng.randrange(W * ratio)) if not big else (rng.randrange(2), rng.randrange(2))       # (big: a corner, so that supported pixels remain)
         fine[r:r + rng.randint(1, 2 * ratio), c:c + rng.randint(1, 2 * ratio)] = False
-    if rng.random() < 0.3:
+    if rng.random() < 0.3 and not big:
         fine[:, :ratio] = False
     joint = np.ones((H, W), bool)
-    for _ in range(rng.randint(0, 2)):
+    for _ in range(rng.randint(0, 2) if not big else 0):
         joint[rng.randrange(H), rng.randrange(W)] = False
     # the parameter mask is what _full_coverage_mask ANDs with: a pixel with no valid fine pixel at all is never jointly valid
     joint &= fine.reshape(H, ratio, W, ratio).any(axis=(1, 3))
@@ -39,7 +44,20 @@ def coverage_case(rng, ratio):
     out = km._full_coverage_mask(in_ra.mask_ra, param_ra)
     obs = np.asarray(out.array).astype(bool)
     case = [0, kh, kw, H, W, *covered.astype(float).ravel(), *joint.astype(float).ravel(), *obs.astype(float).ravel()]
-    return [float(x) for x in case], dict(kernel_shape=[kh, kw], ratio=ratio, shape=[H, W], fine_mask=fine.astype(int).tolist(), joint=joint.astype(int).tolist())
+    # independent oracle (the property's own words): kept = every processing pixel of the (h + 2) x (w + 2) neighbourhood lies inside the block,
+    # is wholly covered by valid input pixels and is jointly valid
+    sup = covered & joint
+    exp = np.zeros((H, W), bool)
+    for r in range(H):
+        for c in range(W):
+            r0, r1, c0, c1 = r - kh // 2 - 1, r + kh // 2 + 2, c - kw // 2 - 1, c + kw // 2 + 2
+            exp[r, c] = r0 >= 0 and c0 >= 0 and r1 <= H and c1 <= W and bool(sup[r0:r1, c0:c1].all())
+    bad = np.argwhere(exp != obs)
+    desc = dict(kernel_shape=[kh, kw], ratio=ratio, shape=[H, W], fine_mask=fine.astype(int).tolist(), joint=joint.astype(int).tolist())
+    if len(bad):
+        r, c = (int(v) for v in bad[0])
+        desc['oracle'] = dict(pixel=[r, c], fully_supported=bool(exp[r, c]), kept=bool(obs[r, c]), n_diff=int(len(bad)))
+    return [float(x) for x in case], desc
 
 
 def expected_mask(pair, g, proc_is_ref, kshape):
@@ -93,7 +111,7 @@ def body(run):
     rng = run.rng('partial')
     cases, metas, dist = [], [], {}
     for k in range(run.scale(60, 1000)):
-        c, desc = coverage_case(rng, rng.choice([1, 2, 2, 4]))
+        c, desc = coverage_case(rng, rng.choice([1, 2, 2, 4])) if k % 12 != 7 else coverage_case(rng, 1, big=True)
         cases.append(c)
         metas.append(desc)
         run.count_case((k,), True, desc if k < 2 else None)
@@ -124,6 +142,11 @@ def body(run):
     finally:
         RasterFuse.block_pairs = orig_bp
     failing, nt = run.corr('coverage', 'Corr.CheckC17', cases, shard=100)
+    for m in [m_ for m_ in metas if 'oracle' in m_][:3]:
+        o = m.pop('oracle')
+        run.add_violation('partial masking does not keep exactly the fully supported pixels (_full_coverage_mask on one block)', m,
+                          expected=f"pixel {o['pixel']} kept iff fully supported ({o['fully_supported']})", observed=dict(kept=o['kept'], pixels_differing=o['n_diff']),
+                          signature=dict(kind='coverage-unit'))
     for k in failing[:5]:
         run.add_break('correspondence-break', '_full_coverage_mask differs from Kernel.Morph.full_coverage' if 'fine_mask' in metas[k] else
                       'the block overlap process() uses is smaller than the erosion reach (+ 1 with partial masking): premise of C17_seam_sampling_safe', metas[k])
